@@ -15,6 +15,41 @@ def _prim(rng):
     return rng.random() < 0.4
 
 
+def _set_config(gp, dp):
+    from cspuz.configuration import config
+    old = (config.use_graph_primitive, config.use_graph_division_primitive)
+    config.use_graph_primitive, config.use_graph_division_primitive = gp, dp
+    return old
+
+
+def _prim_call(rng, prim, fn, st=None, division=False, unused=False):
+    """The real call `fn(p)` (p = the value passed as `use_graph_primitive`) under a configuration that must not matter.
+    Usually p = prim EXPLICITLY while `config.use_graph_primitive` / `config.use_graph_division_primitive` hold RANDOM values for the
+    duration of the call (the explicit argument beats the configuration: True and False alike); in a fraction of the cases p = None
+    and the flag the function reads (`division`: the division flag, else the general one) is set to `prim`, the other one random
+    (None follows the configuration).  `unused`: the route never uses the primitive (acyclic connectivity), so with p = None both flags
+    stay random.  The model side only ever sees `prim`.  Configuration restored afterwards, whatever happens."""
+    gp, dp = rng.random() < 0.5, rng.random() < 0.5
+    p = prim
+    if rng.random() < 0.3:
+        p = None
+        if not unused:
+            if division:
+                dp = prim
+            else:
+                gp = prim
+    if st is not None:
+        st["cfg"] = {"use_graph_primitive_argument": p, "config.use_graph_primitive": gp, "config.use_graph_division_primitive": dp}
+
+    def call():
+        old = _set_config(gp, dp)
+        try:
+            return fn(p)
+        finally:
+            _set_config(*old)
+    return call
+
+
 def _big(big):
     """(n, edges, grid) of a deterministic medium / large instance: big = ('graph', n, edges) | ('grid', h, w)."""
     if big[0] == "grid":
@@ -45,16 +80,18 @@ def case_avc(rng, big=None):
         st["ia"] = ia
         if grid:
             arr = BoolArray2D(ia, grid)
-            return lambda: G.active_vertices_connected(s, arr, acyclic=acyclic, use_graph_primitive=prim)
+            return _prim_call(rng, prim, lambda p: G.active_vertices_connected(s, arr, acyclic=acyclic, use_graph_primitive=p), st,
+                              unused=acyclic)
         arg = BoolArray1D(ia) if (rng.random() < 0.5 and all(not isinstance(x, bool) for x in ia)) else ia
-        return lambda: G.active_vertices_connected(s, arg, mk, acyclic=acyclic, use_graph_primitive=prim)
+        return _prim_call(rng, prim, lambda p: G.active_vertices_connected(s, arg, mk, acyclic=acyclic, use_graph_primitive=p), st,
+                          unused=acyclic)
     mk = graphs.mk_graph(n, edges)
     real = graphs.capture(build)
     base = len([v for v in real[3].variables]) if real[0] == "err" else None
     nb = max(1, n) + 2
     line = sx(["avc", n, edges, [pexpr(x) for x in st.get("ia", [])], nb, acyclic, prim])
     desc = {"fn": "active_vertices_connected", "n": n, "edges": edges, "acyclic": acyclic, "prim": prim,
-            "grid": grid, "ia": [pexpr(x) for x in st.get("ia", [])]}
+            "grid": grid, "ia": [pexpr(x) for x in st.get("ia", [])], "cfg": st.get("cfg")}
     return real, line, desc
 
 
@@ -180,6 +217,19 @@ def case_divconn(rng, big=None):
     elif rng.random() < 0.6:
         roots = [rng.choice([None, rng.randrange(n)]) for _ in range(rng.randint(0, k))]
     st = {}
+    # the public wrapper has no `use_graph_primitive` argument: it follows `config.use_graph_primitive` (set for the duration of the
+    # call; the division flag, which it must not read, is random)
+    cfgprim = rng.random() < 0.3
+    cfgdiv = rng.random() < 0.5
+
+    def under_config(fn):
+        def call():
+            old = _set_config(cfgprim, cfgdiv)
+            try:
+                return fn()
+            finally:
+                _set_config(*old)
+        return call
 
     def build(s):
         for _ in range(n):
@@ -189,16 +239,17 @@ def case_divconn(rng, big=None):
         if grid:
             arr = IntArray2D(dv, grid)
             r2 = None if roots is None else [None if r is None else (r // grid[1], r % grid[1]) for r in roots]
-            return lambda: G.division_connected(s, arr, k, roots=r2, allow_empty_group=allow_empty)
+            return under_config(lambda: G.division_connected(s, arr, k, roots=r2, allow_empty_group=allow_empty))
         arg = IntArray1D(dv) if all(not isinstance(x, int) for x in dv) and rng.random() < 0.7 else dv
         st["islist"] = not isinstance(arg, IntArray1D)
-        return lambda: G.division_connected(s, arg, k, mk, roots=roots, allow_empty_group=allow_empty)
+        return under_config(lambda: G.division_connected(s, arg, k, mk, roots=roots, allow_empty_group=allow_empty))
     mk = graphs.mk_graph(n, edges)
     real = graphs.capture(build)
     line = sx(["divconn", n, edges, [pexpr(x) for x in st.get("dv", [])], k,
-               "N" if roots is None else ["N" if r is None else r for r in roots], allow_empty, False, n])
+               "N" if roots is None else ["N" if r is None else r for r in roots], allow_empty, cfgprim, n])
     return real, line, {"fn": "division_connected", "n": n, "edges": edges, "k": k, "roots": roots,
-                        "allow_empty": allow_empty, "grid": grid}
+                        "allow_empty": allow_empty, "grid": grid, "config.use_graph_primitive": cfgprim,
+                        "config.use_graph_division_primitive": cfgdiv}
 
 
 def case_divconn_prim(rng, big=None):
@@ -222,13 +273,13 @@ def case_divconn_prim(rng, big=None):
         dv = [v for v in s.variables]
         st["dv"] = dv
         arg = IntArray1D(dv) if rng.random() < 0.5 else list(dv)
-        return lambda: G._division_connected(s, arg, k, mk, roots=roots, allow_empty_group=allow_empty,
-                                             use_graph_primitive=True)
+        return _prim_call(rng, True, lambda p: G._division_connected(s, arg, k, mk, roots=roots, allow_empty_group=allow_empty,
+                                                                     use_graph_primitive=p), st)
     mk = graphs.mk_graph(n, edges)
     real = graphs.capture(build)
     line = sx(["divconn", n, edges, [pexpr(x) for x in st.get("dv", [])], k,
                "N" if roots is None else ["N" if r is None else r for r in roots], allow_empty, True, n])
-    return real, line, {"fn": "_division_connected(prim)", "n": n, "edges": edges, "k": k, "roots": roots}
+    return real, line, {"fn": "_division_connected(prim)", "n": n, "edges": edges, "k": k, "roots": roots, "cfg": st.get("cfg")}
 
 
 def _size_vars(rng, s, count, n):
@@ -323,12 +374,13 @@ def case_vgborders(rng, big=None):
         bd = graphs.bool_forms(rng, type("S", (), {"variables": bs})(), max(1, m), 0, m, allow_const=rng.random() < 0.2,
                                plain=big is not None)
         st["bd"] = [pexpr(x) for x in bd]
-        return lambda: G.division_connected_variable_groups_with_borders(s, group_size=real_gs, is_border=bd, graph=mk,
-                                                                       use_graph_primitive=prim)
+        return _prim_call(rng, prim, lambda p: G.division_connected_variable_groups_with_borders(
+            s, group_size=real_gs, is_border=bd, graph=mk, use_graph_primitive=p), st, division=True)
     mk = graphs.mk_graph(n, edges)
     real = graphs.capture(build)
     line = sx(["vgborders", n, edges, st.get("gs", []), st.get("bd", []), prim, max(1, n) + max(1, m)])
-    return real, line, {"fn": "division_connected_variable_groups_with_borders", "n": n, "edges": edges, "prim": prim}
+    return real, line, {"fn": "division_connected_variable_groups_with_borders", "n": n, "edges": edges, "prim": prim,
+                        "cfg": st.get("cfg")}
 
 
 def case_cycle(rng, path=False, big=None):
@@ -347,17 +399,17 @@ def case_cycle(rng, path=False, big=None):
         ie = graphs.bool_forms(rng, s, max(1, m), 0, m, allow_const=rng.random() < 0.3, plain=big is not None)
         st["ie"] = [pexpr(x) for x in ie]
 
-        def call():
+        def call(p):
             from cspuz.array import BoolArray1D
             f = G.active_edges_single_path if path else G.active_edges_single_cycle
             arg = BoolArray1D(ie) if (ie and all(not isinstance(x, bool) for x in ie) and rng.random() < 0.4) else ie
-            r = f(s, arg, mk, use_graph_primitive=prim)
+            r = f(s, arg, mk, use_graph_primitive=p)
             return [pexpr(x) for x in r.data]
-        return call
+        return _prim_call(rng, prim, call, st)
     mk = graphs.mk_graph(n, edges)
     real = graphs.capture(build)
     line = sx(["path" if path else "cycle", n, edges, st.get("ie", []), prim, max(1, m)])
-    return real, line, {"fn": "single_path" if path else "single_cycle", "n": n, "edges": edges, "prim": prim}
+    return real, line, {"fn": "single_path" if path else "single_cycle", "n": n, "edges": edges, "prim": prim, "cfg": st.get("cfg")}
 
 
 def _canon_linegraph(text):
@@ -440,6 +492,15 @@ def graph_bigs(kind="all"):
     return [("graph", n, es) for n, es in graphs.big_graphs(kind)]
 
 
+def medium_bigs(stars="all"):
+    """every n of graphs.MEDIUM_RANGE (see graphs.medium_graphs)"""
+    return [("graph", n, es) for n, es in graphs.medium_graphs(stars)]
+
+
+def medium_grid_bigs():
+    return [("grid", h, w) for h, w in graphs.medium_grids()]
+
+
 def grid_bigs():
     return [("grid", h, w) for h, w in graphs.BIG_GRIDS]
 
@@ -467,7 +528,7 @@ def run_cases(ctx, casefn, count, label, with_ids=False, native_sets=False, bigs
                 if key in desc and len(desc[key]) > 24:
                     desc[key] = "%s ... (%d items)" % (str(desc[key][:8])[:-1], len(desc[key]))
             if big[0] == "graph":
-                desc["instance"] = ("graphs.long_graph(%d)" if list(big[2]) == graphs.long_graph(big[1])[1] else "graphs.sparse_graph(%d)") % big[1]
+                desc["instance"] = graphs.instance_name(big[1], big[2])
             else:
                 desc["instance"] = list(big)
         ctx.count(label + (":err:" + real[1] if real[0] == "err" else ":ok"))
@@ -505,22 +566,24 @@ def case_frame_cycle(rng, big=None):
     if big is not None:      # (line graph of the model: see case_cycle)
         prim = path = False
 
+    st = {}
+
     def build(s):
         fr = BoolGridFrame(s, H, W)
 
-        def call():
+        def call(p):
             from cspuz.configuration import config
             f = G.active_edges_single_path if path else G.active_edges_single_cycle
             if not path and prim == bool(config.use_graph_primitive) and rng.random() < 0.4:
                 r = fr.single_loop()        # the frame's own convenience method: same constraint, configured encoding
             else:
-                r = f(s, fr, use_graph_primitive=prim)
+                r = f(s, fr, use_graph_primitive=p)
             assert r.shape == (H + 1, W + 1), r.shape
             return [pexpr(x) for x in r.data]
-        return call
+        return _prim_call(rng, prim, call, st)
     real = graphs.capture(build)
     line = sx(["cycle_frame", H, W, prim, path])
-    return real, line, {"fn": "single_cycle/path(frame)", "H": H, "W": W, "prim": prim, "path": path}
+    return real, line, {"fn": "single_cycle/path(frame)", "H": H, "W": W, "prim": prim, "path": path, "cfg": st.get("cfg")}
 
 
 def case_crossable(rng, big=None):
@@ -545,18 +608,19 @@ def case_crossable(rng, big=None):
         for _ in range(extra):
             s.bool_var()
 
-        def call():
+        def call(up):
             if sc and rng.random() < 0.5:
-                p, c = G.active_edges_single_cycle_crossable(s, fr, use_graph_primitive=prim)
+                p, c = G.active_edges_single_cycle_crossable(s, fr, use_graph_primitive=up)
             else:
-                p, c = G.active_edges_connected_crossable(s, fr, single_cycle=sc, use_graph_primitive=prim)
+                p, c = G.active_edges_connected_crossable(s, fr, single_cycle=sc, use_graph_primitive=up)
             assert p.shape == (H + 1, W + 1) and c.shape == (H + 1, W + 1)
             return [pexpr(x) for x in p.data] + [pexpr(x) for x in c.data]
-        return call
+        return _prim_call(rng, prim, call, st)
+    st = {}
     real = graphs.capture(build)
     line = sx(["crossable", H, W, sc, prim]) if (b0, extra, neg) == (0, 0, False) else sx(["crossable2", H, W, sc, prim, b0, extra, neg])
     return real, line, {"fn": "connected_crossable", "H": H, "W": W, "single_cycle": sc, "prim": prim,
-                        "frame_offset": b0, "later_vars": extra, "negated_entries": neg}
+                        "frame_offset": b0, "later_vars": extra, "negated_entries": neg, "cfg": st.get("cfg")}
 
 
 def case_vgborders_frame(rng, big=None):
@@ -572,10 +636,11 @@ def case_vgborders_frame(rng, big=None):
         gs = IntArray2D(_size_vars(rng, s, H * W, H * W), (H, W))
         st["gs"] = [pexpr(x) for x in gs.data]
         fr = BoolInnerGridFrame(s, H, W)
-        return lambda: G.division_connected_variable_groups_with_borders(s, group_size=gs, is_border=fr, use_graph_primitive=prim)
+        return _prim_call(rng, prim, lambda p: G.division_connected_variable_groups_with_borders(
+            s, group_size=gs, is_border=fr, use_graph_primitive=p), st, division=True)
     real = graphs.capture(build)
     line = sx(["vgborders_frame", H, W, st.get("gs", []), prim])
-    return real, line, {"fn": "with_borders(frame)", "H": H, "W": W, "prim": prim}
+    return real, line, {"fn": "with_borders(frame)", "H": H, "W": W, "prim": prim, "cfg": st.get("cfg")}
 
 
 def case_vgroups_shape(rng, big=None):
